@@ -57,10 +57,16 @@ Code(clause) == CASE clause = "merge.doc_unmodified" -> "unmod" [] clause = "mer
                   [] clause = "merge.deep_union" -> "union" [] clause = "merge.default_marker" -> "marker"
                   [] clause = "merge.precedence" -> "prec" [] OTHER -> clause
 
-(* clauses violated by an observed section o against the expectation e after merging source s *)
-MergeClauses(e, o, s) == {ClauseAt(s, p) : p \in Diff(e, o, FALSE, <<>>)}
+(* clauses violated by an observed section o against the expectation e after merging the sources srcs (the last   *)
+(* one is the source of this step, the others were merged in steps whose result could not be observed): the      *)
+(* clause is the one of the latest source that mentions the deviating path                                       *)
+RECURSIVE ClauseOf(_, _, _)
+ClauseOf(srcs, p, i) ==
+    IF i = 0 THEN "merge.deep_union"
+    ELSE LET c == ClauseAt(srcs[i], p) IN IF c = "merge.deep_union" THEN ClauseOf(srcs, p, i - 1) ELSE c
+MergeClauses(e, o, srcs) == {ClauseOf(srcs, p, Len(srcs)) : p \in Diff(e, o, FALSE, <<>>)}
 
-St0(r) == [pcfg |-> <<>>, ppend |-> <<>>, made |-> {}, loose |-> {}, ment |-> <<>>,
+St0(r) == [pcfg |-> <<>>, ppend |-> <<>>, made |-> {}, loose |-> {}, ment |-> <<>>, unseen |-> <<>>,
            ocfg |-> <<>>, odocs |-> [d \in DOMAIN r.docs |-> J2V(r.docs[d])], orep |-> <<>>, frozen |-> <<>>, owner |-> <<>>,
            errs |-> {}, first |-> 0]
 
@@ -92,12 +98,17 @@ Step(st, r, i) ==
                    ELSE IF r.optkey \in DOMAIN merged /\ IsMap(merged[r.optkey])
                         THEN (IF grouped THEN M(GroupApply(merged[r.optkey].m, block, ment)) ELSE merged[r.optkey])
                    ELSE Any
-        checked == s.op \in {"new", "upd", "create"} /\ ~nowLoose /\ ~(s.op = "new" /\ s.d = 0) /\ s.blind = 0
-        cfgBad == IF checked THEN MergeClauses(M(expCfg), ocfg[b], src) ELSE {}
+        (* while overrides are pending the statement fixes only what the created context will report, not when the    *)
+        (* builder folds them in: the intermediate configuration is then not asserted                                 *)
+        pending == known /\ st.ppend[b] # <<>>
+        checked == /\ s.op \in {"new", "upd", "create"} /\ ~nowLoose /\ ~(s.op = "new" /\ s.d = 0) /\ s.blind = 0
+                   /\ ~(s.op = "upd" /\ pending)
+        srcs == (IF known /\ b \in DOMAIN st.unseen THEN st.unseen[b] ELSE <<>>) \o <<src>>
+        cfgBad == IF checked THEN MergeClauses(M(expCfg), ocfg[b], srcs) ELSE {}
         repBad == IF s.op = "create" /\ ~nowLoose
-                  THEN (IF s.blind = 0 THEN MergeClauses(M(expCfg), orep[s.c][1], src) ELSE {})
+                  THEN (IF s.blind = 0 THEN MergeClauses(M(expCfg), orep[s.c][1], srcs) ELSE {})
                        \cup {IF grouped /\ p # <<>> /\ p[1] \in DOMAIN block THEN "merge.precedence"
-                             ELSE ClauseAt(src, <<r.optkey>> \o p) : p \in Diff(expOpts, orep[s.c][2], FALSE, <<>>)}
+                             ELSE ClauseOf(srcs, <<r.optkey>> \o p, Len(srcs)) : p \in Diff(expOpts, orep[s.c][2], FALSE, <<>>)}
                   ELSE {}
         docBad == IF \E d \in DOMAIN docs : odocs[d] # docs[d] THEN {"merge.doc_unmodified"} ELSE {}
         loose == IF nowLoose THEN st.loose \cup {b} ELSE st.loose
@@ -110,7 +121,7 @@ Step(st, r, i) ==
                   THEN {"merge.ctx_stable"} ELSE {}
         bad == cfgBad \cup repBad \cup docBad \cup ctxBad
         (* continue from what the implementation shows, so that one deviation is reported once *)
-        resync == s.blind = 0 /\ (cfgBad # {} \/ nowLoose) /\ b \in DOMAIN ocfg /\ IsMap(ocfg[b])
+        resync == s.blind = 0 /\ ~(s.op = "upd" /\ pending) /\ (cfgBad # {} \/ nowLoose) /\ b \in DOMAIN ocfg /\ IsMap(ocfg[b])
         pnew == IF s.op \in {"new", "upd", "create"} THEN (IF resync THEN ocfg[b].m ELSE expCfg) ELSE merged
     IN [pcfg |-> IF s.op = "obs" THEN st.pcfg ELSE Put(st.pcfg, b, pnew),
         ppend |-> IF s.op = "new" THEN Put(st.ppend, b, <<>>)
@@ -119,6 +130,10 @@ Step(st, r, i) ==
         made |-> IF s.op = "create" THEN st.made \cup {b} ELSE st.made,
         loose |-> loose,
         ment |-> IF s.op = "obs" THEN st.ment ELSE Put(st.ment, b, ment),
+        unseen |-> IF s.op = "obs" THEN st.unseen
+                   ELSE IF s.op \in {"upd", "create"} /\ ~checked /\ ~nowLoose THEN Put(st.unseen, b, SubSeq(srcs, 1, Len(srcs)))
+                   ELSE IF s.op \in {"new", "upd", "create"} THEN Put(st.unseen, b, <<>>)
+                   ELSE st.unseen,
         ocfg |-> ocfg, odocs |-> odocs, orep |-> orep, frozen |-> [c \in DOMAIN frozen |-> orep[c]], owner |-> owner,
         errs |-> st.errs \cup bad,
         first |-> IF st.first = 0 /\ bad # {} THEN i ELSE st.first]
